@@ -9,7 +9,7 @@ for i in range(1, 21):
         continue
     e = json.load(open(p))
     c = e['coverage']
-    out.append('**C%02d** — %d rule instances, %d functions read (quick tier, default features)' % (i, c['obligations'], c['functions_analysed']))
+    out.append('**C%02d** — %d rule instances, %d functions read (as recorded in evidence/C%02d.json: a thorough-tier file counts the instances of both feature configurations, a quick-tier file those of the default one)' % (i, c['obligations'], c['functions_analysed'], i))
     out.append('')
     for r in c['rules']:
         out.append('* ' + r)
